@@ -175,6 +175,21 @@ def Rel.payloadSql (s : SqlState) (r : Rel) : Option SqlPayload :=
 def subAvail (alias : String) (cols : Cols) : List (Tag × SqlExpr) :=
   cols.foldl (fun acc t => if (acc.find? (·.1 == t)).isSome then acc else acc ++ [(t, SqlExpr.col alias t)]) []
 
+/-- The payload of a database table holding the rows of a relation with the given columns: every column is
+available as the table's column of the same name (`Payload(from_clause=table, columns_available=...)`). -/
+def tablePayload (name : String) (uid idx : Nat) (cols : Cols) (wh : List SqlPred := []) : SqlPayload :=
+  { frm := .table name uid idx, wh := wh, avail := cols.map (fun t => (t, SqlExpr.col name t)) }
+
+/-- The ON term for one common column of a join: `lhs[t] == rhs[t]`. -/
+def onCommonTerm (la ra : List (Tag × SqlExpr)) (t : Tag) : Option SqlPred :=
+  match SqlPayload.lookup la t, SqlPayload.lookup ra t with
+  | some a, some b => some (SqlPred.fn .eq [a, b])
+  | _, _ => none
+
+/-- The extra ON terms of a join: the flattened predicate, unless it is trivially true. -/
+def joinExtra (avail : List (Tag × SqlExpr)) (pred : Pred) : Except Err (List SqlPred) :=
+  if pred.asTrivial == some true then .ok [] else convFlattened avail pred
+
 mutual
 /-- `_select_to_executable(select, ())`; the `Nat` threads the anonymous-alias counter. -/
 def compileSelect (s : SqlState) : Nat → Rel → Nat → Except Err (Query × Nat)
@@ -257,17 +272,11 @@ def toPayload (s : SqlState) : Nat → Rel → Nat → Except Err (SqlPayload ×
             match j.commonColumns with
             | .error err => .error err
             | .ok common =>
-              let onCommon : Option (List SqlPred) := common.mapM (fun t =>
-                match SqlPayload.lookup pl.avail t, SqlPayload.lookup pr.avail t with
-                | some a, some b => some (SqlPred.fn .eq [a, b])
-                | _, _ => none)
-              match onCommon with
+              match common.mapM (onCommonTerm pl.avail pr.avail) with
               | none => .error .key
               | some oc =>
                 let avail := availMerge pl.avail pr.avail
-                let extra : Except Err (List SqlPred) :=
-                  if j.pred.asTrivial == some true then .ok [] else convFlattened avail j.pred
-                match extra with
+                match joinExtra avail j.pred with
                 | .error err => .error err
                 | .ok ex =>
                   .ok ({ frm := .join pl.frm pr.frm (oc ++ ex), wh := pl.wh ++ pr.wh, avail := avail }, c2)
@@ -391,6 +400,16 @@ def finishLevel (cols : Cols) (pairs : List (Row × List (Int × Bool))) (hasOrd
     (offset == 0 && (match limit with | none => true | some l => l ≥ n)) || total || allSame
   { rows := sliced.map (·.1), det := detIn && sliceDet, total := total }
 
+/-- The output row of a SELECT list in an environment. -/
+def itemRow (items : List (Tag × SqlExpr)) (e : PEnv) : Row := fun t =>
+  match items.find? (·.1 == t) with
+  | some (_, x) => SqlExpr.eval e x
+  | none => none
+
+/-- The ORDER BY key tuple in an environment. -/
+def orderKeys (orderBy : List (SqlExpr × Bool)) (e : PEnv) : List (Int × Bool) :=
+  orderBy.map (fun (x, asc) => ((SqlExpr.eval e x).getD 0, asc))
+
 mutual
 def From.envs (tables : List (List Row)) : From → List PEnv × Bool
   | .table name _ idx => ((tables.getD idx []).map (rowEnv name), true)
@@ -408,11 +427,7 @@ def Query.eval (tables : List (List Row)) : Query → EvalOut
     let (envs, d0) := From.envs tables frm
     let envs := envs.filter (fun e => SqlPred.evalAll e wh)
     let cols := items.map (·.1)
-    let pairs : List (Row × List (Int × Bool)) := envs.map (fun e =>
-      (fun t => match items.find? (·.1 == t) with
-                | some (_, x) => SqlExpr.eval e x
-                | none => none,
-       orderBy.map (fun (x, asc) => ((SqlExpr.eval e x).getD 0, asc))))
+    let pairs : List (Row × List (Int × Bool)) := envs.map (fun e => (itemRow items e, orderKeys orderBy e))
     let ambiguous := distinct && !orderBy.isEmpty &&
       !(pairs.all (fun p => pairs.all (fun q => !(rowEqOn cols p.1 q.1) || keysEq p.2 q.2)))
     let pairs := if distinct then distinctPairs cols pairs [] else pairs
@@ -421,8 +436,7 @@ def Query.eval (tables : List (List Row)) : Query → EvalOut
     let lo := Query.eval tables l
     let ro := Query.eval tables r
     let rows := lo.rows ++ ro.rows
-    let pairs : List (Row × List (Int × Bool)) := rows.map (fun row =>
-      (row, orderBy.map (fun (x, asc) => ((SqlExpr.eval (rowEnv "" row) x).getD 0, asc))))
+    let pairs : List (Row × List (Int × Bool)) := rows.map (fun row => (row, orderKeys orderBy (rowEnv "" row)))
     let pairs := if all then pairs else distinctPairs cols pairs []
     finishLevel cols pairs (!orderBy.isEmpty) offset limit (lo.det && ro.det)
 end
@@ -511,9 +525,33 @@ def From.hasDup : From → Bool
   | .join l r _ => From.hasDup l || From.hasDup r
 def Query.hasDup : Query → Bool
   | .select _ frm _ _ _ _ _ =>
-    From.hasDup frm || (From.names frm).eraseDups.length != (From.names frm).length
+    From.hasDup frm || !(decide (From.names frm).Nodup)
   | .compound _ l r _ _ _ _ => Query.hasDup l || Query.hasDup r
 end
+
+/-! ### The decidable part of what the compile-correctness theorem asks of a tree -/
+
+/-- Leaves and processed markers hold payloads (a Select may), every function application has
+the arity of its function, joins carry their resolved common columns, and a deduplicating Select does not
+sort by a column its projection dropped (`Lemmas/SqlCompileSound.lean`: `Rel.SqlReady`). -/
+def Rel.structReady (s : SqlState) : Rel → Bool
+  | .leaf oid .. => (s.payload oid).isSome
+  | .unary op t _ =>
+    Rel.structReady s t && (match op with
+      | .calc _ e => e.arityOk
+      | .sel p => p.arityOk
+      | .sort ts => ts.all (fun t => t.expr.arityOk)
+      | _ => true)
+  | .binary op l r _ => Rel.structReady s l && Rel.structReady s r &&
+      (match op with
+       | .join j => j.pred.arityOk && j.resolved
+       | _ => true)
+  | .mat oid .. => (s.payload oid).isSome
+  | .transfer oid .. => (s.payload oid).isSome
+  | .select oid sort _ dedup _ _ skipTo _ target =>
+      (s.payload oid).isSome ||
+      (Rel.structReady s skipTo && sort.all (fun t => t.expr.arityOk) &&
+        (!dedup || (UOp.sortCols sort).subset target.columns))
 
 /-! ### Driver entry point -/
 
